@@ -469,6 +469,8 @@ class Run:
         disagreements = []
         oracle = cfg.get("oracle")
         oracle_fail = []
+        stats_fn = cfg.get("stats")
+        stats = {}
         for cmds, impl, model in results:
             pos = 0
             for case in split_cases(cmds):
@@ -485,6 +487,9 @@ class Run:
                         fps.add(fingerprint(c, a))
                 if len(samples) < 3 and len(case) > 2 and n_cases % 97 == 1:
                     samples.append({"commands": case[:12], "impl": ci[:12], "model": cm[:12]})
+                if stats_fn:
+                    for k in stats_fn(case, ci):
+                        stats[k] = stats.get(k, 0) + 1
                 d = self.diff_case(case, ci, cm)
                 if d is not None:
                     disagreements.append((case, ci, cm, d))
@@ -593,6 +598,8 @@ class Run:
                  "corpus_cases": corpus_cases, "commands": n_cmds, "outcome_histogram": dict(sorted(hist.items())),
                  "model_disagreements": len(disagreements), "oracle_failures": len(oracle_fail),
                  "known_findings_hit": sorted(known_hit.keys()), "proof_broken": proof_broken}
+        if stats_fn:
+            extra["input_distribution"] = dict(sorted(stats.items()))
         self.write_evidence(obligations, discharged, audit, n_cases, len(fps), samples, extra, len(violations), lc)
         log(f"[{pid}] tier={self.tier} cases={n_cases} cmds={n_cmds} distinct={len(fps)} obligations={obligations} "
             f"discharged={discharged} disagreements={len(disagreements)} violations={len(violations)} "
